@@ -4,6 +4,7 @@ import (
 	"bytes"
 	"encoding/json"
 	"fmt"
+	"reflect"
 	"strings"
 	"time"
 
@@ -157,7 +158,10 @@ func (sr *SelectRelation) Materialize(aggRunner *AggRunner, catDir *catalog.Dire
 				if err2 != nil {
 					return nil, fmt.Errorf("non date predicate found for Epoch")
 				}
-				if sp.ContentsEnum.IsSet(INCLUSIVEMIN) {
+				// the bound may be given in seconds or in nanoseconds
+				val = convertUnitToNanosec(val)
+				// the query range is inclusive: an exclusive bound starts one nanosecond later
+				if !sp.ContentsEnum.IsSet(INCLUSIVEMIN) {
 					val += 1
 				}
 				q.SetStart(time.Unix(val/nanosec, val%nanosec))
@@ -167,7 +171,8 @@ func (sr *SelectRelation) Materialize(aggRunner *AggRunner, catDir *catalog.Dire
 				if err2 != nil {
 					return nil, fmt.Errorf("non date predicate found for Epoch")
 				}
-				if sp.ContentsEnum.IsSet(INCLUSIVEMAX) {
+				val = convertUnitToNanosec(val)
+				if !sp.ContentsEnum.IsSet(INCLUSIVEMAX) {
 					val -= 1
 				}
 				q.SetEnd(time.Unix(val/nanosec, val%nanosec))
@@ -675,7 +680,7 @@ func (spg StaticPredicateGroup) Merge(sp *StaticPredicate, IsOr bool) error {
 	if sp.ContentsEnum.IsSet(MINBOUND) {
 		tgtSP.ContentsEnum.AddOption(MINBOUND)
 		if sp.ContentsEnum.IsSet(INCLUSIVEMIN) {
-			tgtSP.ContentsEnum.AddOption(INCLUSIVEMIN)
+			// AddComparison sets the inclusive flag itself, and only if this bound becomes the effective one
 			tgtSP.AddComparison(io.GTE, sp.min)
 		} else {
 			tgtSP.AddComparison(io.GT, sp.min)
@@ -684,7 +689,6 @@ func (spg StaticPredicateGroup) Merge(sp *StaticPredicate, IsOr bool) error {
 	if sp.ContentsEnum.IsSet(MAXBOUND) {
 		tgtSP.ContentsEnum.AddOption(MAXBOUND)
 		if sp.ContentsEnum.IsSet(INCLUSIVEMAX) {
-			tgtSP.ContentsEnum.AddOption(INCLUSIVEMAX)
 			tgtSP.AddComparison(io.LTE, sp.max)
 		} else {
 			tgtSP.AddComparison(io.LT, sp.max)
@@ -813,19 +817,36 @@ func (sp *StaticPredicate) AddComparison(op io.ComparisonOperatorEnum,
 	/*
 		Set value of min/max/equal based on the operator
 	*/
+	// Epoch bounds may be given in seconds or in nanoseconds: compare and keep them in one unit
+	if sp.Column != nil && sp.Column.GetName() == "Epoch" {
+		if v, ok := value.(int64); ok {
+			value = convertUnitToNanosec(v)
+		}
+	}
 	switch op {
 	case io.EQ:
+		if sp.equal != nil && !reflect.DeepEqual(sp.equal, value) {
+			// a second, different equality on the same column: keep the first and add this
+			// one as a closed range, so that the conjunction selects nothing
+			if err := sp.AddComparison(io.GTE, value); err != nil {
+				return err
+			}
+			return sp.AddComparison(io.LTE, value)
+		}
 		sp.equal = value
 		sp.ContentsEnum.AddOption(EQUALITY)
 	case io.LT, io.LTE:
 		if sp.max == nil {
 			sp.SetMax(value, op == io.LTE)
 		} else {
-			isWithin, err := io.GenericComparison(value, sp.max, op)
+			// a second upper bound on the same column: keep the tighter one
+			lower, err := io.GenericComparison(value, sp.max, io.LT)
 			if err != nil {
 				return err
 			}
-			if !isWithin {
+			notHigher, _ := io.GenericComparison(value, sp.max, io.LTE)
+			if lower || (notHigher && op == io.LT) {
+				sp.ContentsEnum.DelOption(INCLUSIVEMAX)
 				sp.SetMax(value, op == io.LTE)
 			}
 		}
@@ -833,11 +854,14 @@ func (sp *StaticPredicate) AddComparison(op io.ComparisonOperatorEnum,
 		if sp.min == nil {
 			sp.SetMin(value, op == io.GTE)
 		} else {
-			isWithin, err := io.GenericComparison(value, sp.min, op)
+			// a second lower bound on the same column: keep the tighter one
+			higher, err := io.GenericComparison(value, sp.min, io.GT)
 			if err != nil {
 				return err
 			}
-			if !isWithin {
+			notLower, _ := io.GenericComparison(value, sp.min, io.GTE)
+			if higher || (notLower && op == io.GT) {
+				sp.ContentsEnum.DelOption(INCLUSIVEMIN)
 				sp.SetMin(value, op == io.GTE)
 			}
 		}
